@@ -96,6 +96,14 @@ def run(ctx):
     from rules.C18 import whole_file_read_rule
     whole_file_read_rule(ctx, prog, cg, 'Q1')
     # ---- Q5 ------------------------------------------------------------------------------------------
+    if not [c for c in F.calls() if c.get('callee') in ('strncpy', 'memcpy', 'memmove')]:
+        # the copies are made by file-local helpers: Q5 looks at the inlined view, where they stand in disable itself
+        from engine import inline
+        Fv = inline.inlined(prog, F)
+        if Fv is not F:
+            F = Fv
+            wc = next(c for c in F.calls(WRITER))
+            fe = F.calls(FIND_ENTRY)
     newbuf = decl_of(arg(wc, 0))
     entry = common.holder(F, fe[0])
     if newbuf is None or content is None or entry is None:
@@ -145,6 +153,12 @@ def run(ctx):
     line_helpers_rule(ctx, prog)
     ba = BoundsAnalysis(prog, cg)
     obls = ba.analyse(F, queries=queries)
+    if getattr(F, 'inlined_from', None) and any(not o.ok for o in obls):
+        # the copies live in file-local helpers and the linear facts do not carry through them: undecided, not violated
+        bad_ = [o for o in obls if not o.ok]
+        raise AnalysisBroken('disable builds the new content in file-local helpers (%s); on the inlined view %d of the %d Q5 '
+                             'obligations are not proved (first: %s at %s): Q5 is not decided for this shape' % (
+                                 ', '.join(sorted(set(F.inlined_from))), len(bad_), len(obls), bad_[0].text[:50], bad_[0].node.where()))
     seen = {}
     nq = 0
     for o in obls:
@@ -152,10 +166,6 @@ def run(ctx):
         seen[(o.kind, o.text)] = i + 1
         nq += 1 if o.kind == 'query' else 0
         chk.ob('Q5', '%s[%s#%d]' % (o.kind, o.text, i), o.ok, o.node.where(), F.name, o.missing, how=o.how)
-    if nq < 2 and not copies and any(c.get('callee') in ('strncpy', 'memcpy', 'memmove')
-                                    for g in common.with_helpers(prog, F)[1:] for c in g.calls()):
-        raise AnalysisBroken('disable builds the new content in a file-local helper: the three-part-copy rule Q5 is written for '
-                             'copies made in %s itself and does not follow that split' % F.name)
     if nq < 2:
         chk.ob('Q5', 'three-part-copy-identified', False, F.where(), F.name,
                'disable does not build the new content from two recognisable copies around the entry\'s line '
